@@ -40,10 +40,28 @@
 //!     after every earlier write; the second delivery is necessarily in a later batch, so the first batch
 //!     has been processed completely.  No sleeping; `false` = the worker did not answer within the
 //!     watchdog (it exited or is blocked).
+//! * additions for the `mem` / `vq` families (C13, C14), all add-only:
+//!   * [`Shared::mem_snapshots`] — every `update_memory` call stores the very snapshot it was handed
+//!     (`mem.memory().into_inner()`, an `Arc<GuestMemoryMmap<B>>` behind `dyn Any`); [`Bench::snapshots`] downcasts them.
+//!     Reads and writes of guest memory "as the backend was given it" go through these objects.
+//!   * [`RingFull`] / [`Shared::samples`] — every `handle_event` samples *all* queue accessors of every ring of its
+//!     slice (size, max_size, ready, next_avail, next_used, desc/avail/used addresses, event_idx, enabled) from inside the
+//!     handler; [`Bench::sample`]`(thread)` fires a dedicated listener and returns the sample taken by that delivery.
+//!   * [`Shared::set_hook`] — a closure run *inside* `handle_event` (after sampling) with the ring slice, for ring
+//!     operations issued from the backend's event handler (`add_used`, `signal_used_queue`, ...); its output strings are
+//!     collected in [`Shared::hook_out`].  [`Bench::run_in_handler`] installs a one-shot hook, triggers a delivery on the
+//!     thread and returns what the hook produced.
+//!   * [`Shared::backend_reqs`] — the `Backend` objects handed to `set_backend_req_fd` (so that a scenario can issue
+//!     backend-initiated requests through them and look at what arrives on its end of the channel).
+//!   * [`Bench::reconnect`] — a refused request ends the daemon's connection thread; `reconnect` waits for it
+//!     (`VhostUserDaemon::wait`), lets the *same* daemon (same handler, rings, memory, backend) accept a fresh connection
+//!     (`VhostUserDaemon::start` on a new listener) and replaces `peer`.  The handler state survives, the per-connection
+//!     negotiation state of the request server does not (the scenario repeats the feature exchange).
 //! * [`Bench::finish`] — closes the peer, waits for the daemon thread (`wait()`), drops the daemon (which
 //!   joins the workers if exit events are configured).
 #![allow(dead_code)]
 
+use std::any::Any;
 use std::collections::HashMap;
 use std::io;
 use std::marker::PhantomData;
@@ -202,9 +220,76 @@ pub struct Shared<V> {
     /// descriptors (`into_raw_fd`) and never closes them; the bench closes them after the daemon is gone so that a
     /// long-running harness process does not run out of descriptors.
     exit_fds: Mutex<Vec<RawFd>>,
+    // ---- additions for the mem / vq families (C13, C14)
+    /// the snapshot (`Arc<GuestMemoryMmap<B>>`) each `update_memory` call was handed, oldest first
+    pub mem_snapshots: Mutex<Vec<Arc<dyn Any + Send + Sync>>>,
+    /// full accessor samples taken inside every `handle_event`
+    pub samples: Mutex<Vec<Sample>>,
+    /// closure run inside `handle_event` (after sampling); returns canonical output tokens
+    hook: Mutex<Option<Hook<V>>>,
+    /// what the hooks produced
+    pub hook_out: Mutex<Vec<String>>,
+    /// the channels handed to `set_backend_req_fd`
+    pub backend_reqs: Mutex<Vec<Backend>>,
+    /// per thread: eventfd of the sampling listener (id `SAMPLE_BASE + thread`)
+    samplers: Mutex<HashMap<usize, Arc<OwnedFd>>>,
+}
+
+/// listener ids used by `Bench::sample` / `Bench::run_in_handler`
+pub const SAMPLE_BASE: u64 = 0xB100;
+
+/// `(device_event, ring slice, thread_id) -> output tokens`; return value `true` of the second component = keep the hook
+pub type Hook<V> = Box<dyn FnMut(u16, &[V], usize) -> (Vec<String>, bool) + Send>;
+
+/// every accessor of one ring, read inside the backend's event handler
+#[derive(Debug, Clone, Copy, PartialEq, Eq)]
+pub struct RingFull {
+    pub size: u16,
+    pub max_size: u16,
+    pub ready: bool,
+    pub next_avail: u16,
+    pub next_used: u16,
+    pub desc_table: u64,
+    pub avail_ring: u64,
+    pub used_ring: u64,
+    pub event_idx: bool,
+    pub enabled: bool,
+}
+
+#[derive(Debug, Clone, PartialEq, Eq)]
+pub struct Sample {
+    pub device_event: u16,
+    pub thread_id: usize,
+    pub rings: Vec<RingFull>,
+}
+
+pub fn ring_full<V, B>(v: &V) -> RingFull
+where
+    B: Bitmap + 'static,
+    V: VringT<GM<B>>,
+{
+    let g = v.get_ref();
+    let q = g.get_queue();
+    RingFull {
+        size: q.size(),
+        max_size: q.max_size(),
+        ready: q.ready(),
+        next_avail: q.next_avail(),
+        next_used: q.next_used(),
+        desc_table: q.desc_table(),
+        avail_ring: q.avail_ring(),
+        used_ring: q.used_ring(),
+        event_idx: q.event_idx_enabled(),
+        enabled: g.is_enabled(),
+    }
 }
 
 impl<V> Shared<V> {
+    /// install (or clear) the closure run inside `handle_event`
+    pub fn set_hook(&self, h: Option<Hook<V>>) {
+        *self.hook.lock().unwrap() = h;
+    }
+
     fn new() -> Self {
         Shared {
             log: Arc::new(EventLog::default()),
@@ -213,6 +298,12 @@ impl<V> Shared<V> {
             vrings: Mutex::new(HashMap::new()),
             exit_calls: AtomicU64::new(0),
             exit_fds: Mutex::new(Vec::new()),
+            mem_snapshots: Mutex::new(Vec::new()),
+            samples: Mutex::new(Vec::new()),
+            hook: Mutex::new(None),
+            hook_out: Mutex::new(Vec::new()),
+            backend_reqs: Mutex::new(Vec::new()),
+            samplers: Mutex::new(HashMap::new()),
         }
     }
 }
@@ -279,6 +370,9 @@ where
     }
     fn update_memory(&mut self, mem: GM<B>) -> io::Result<()> {
         let regions = mem.memory().iter().map(|r| (r.start_addr().0, r.len())).collect();
+        // (C13/C14) keep the very snapshot this call was handed
+        let snap: Arc<GuestMemoryMmap<B>> = mem.memory().into_inner();
+        self.shared.mem_snapshots.lock().unwrap().push(snap as Arc<dyn Any + Send + Sync>);
         self.shared.log.push(Ev::UpdateMemory { regions });
         self.mem = Some(mem);
         if self.cfg.update_memory_fails {
@@ -287,7 +381,8 @@ where
             Ok(())
         }
     }
-    fn set_backend_req_fd(&mut self, _backend: Backend) {
+    fn set_backend_req_fd(&mut self, backend: Backend) {
+        self.shared.backend_reqs.lock().unwrap().push(backend);
         self.shared.log.push(Ev::SetBackendReqFd);
     }
     fn queues_per_thread(&self) -> Vec<u64> {
@@ -311,6 +406,12 @@ where
                 let _ = peer::efd_read(fd.as_raw_fd());
             }
         }
+        // (C13/C14) drain the sampling listener only on its own delivery
+        if device_event as u64 == SAMPLE_BASE + thread_id as u64 {
+            if let Some(fd) = self.shared.samplers.lock().unwrap().get(&thread_id) {
+                let _ = peer::efd_read(fd.as_raw_fd());
+            }
+        }
         // drain every probe of this thread, remember which ones were pending
         let mut fired = Vec::new();
         if let Some(ps) = self.shared.probes.lock().unwrap().get(&thread_id) {
@@ -323,6 +424,20 @@ where
         fired.sort_unstable();
         let rings: Vec<RingId> = vrings.iter().map(|v| ring_id::<V, B>(v)).collect();
         self.shared.vrings.lock().unwrap().insert(thread_id, vrings.to_vec());
+        // (C13/C14) full accessor sample and the in-handler hook, before the event becomes visible in the log
+        let full: Vec<RingFull> = vrings.iter().map(|v| ring_full::<V, B>(v)).collect();
+        self.shared.samples.lock().unwrap().push(Sample { device_event, thread_id, rings: full });
+        let hook = self.shared.hook.lock().unwrap().take();
+        if let Some(mut h) = hook {
+            let (out, keep) = h(device_event, vrings, thread_id);
+            self.shared.hook_out.lock().unwrap().extend(out);
+            if keep {
+                let mut g = self.shared.hook.lock().unwrap();
+                if g.is_none() {
+                    *g = Some(h);
+                }
+            }
+        }
         self.shared.log.push(Ev::HandleEvent { device_event, evset: evset.bits(), thread_id, rings, fired });
         Ok(())
     }
@@ -357,6 +472,8 @@ pub trait DaemonOps: Send {
     /// `VhostUserDaemon::wait()`: true = Ok
     fn wait_ok(&mut self) -> bool;
     fn request_shutdown(&self);
+    /// (C13/C14) `VhostUserDaemon::start` once more on the same daemon: true = a connection was accepted
+    fn restart(&mut self, listener: &mut Listener) -> bool;
 }
 
 impl<T> DaemonOps for VhostUserDaemon<T>
@@ -370,6 +487,9 @@ where
     }
     fn request_shutdown(&self) {
         VhostUserDaemon::request_shutdown(self)
+    }
+    fn restart(&mut self, listener: &mut Listener) -> bool {
+        self.start(listener).is_ok()
     }
 }
 
@@ -514,6 +634,95 @@ impl<V, B: Bitmap + 'static> Bench<V, B> {
             }
         }
         true
+    }
+
+    // ------------------------------------------------------------ additions for the mem / vq families (C13, C14)
+
+    /// The snapshots handed to `update_memory`, oldest first.
+    pub fn snapshots(&self) -> Vec<Arc<GuestMemoryMmap<B>>>
+    where
+        B: Send + Sync,
+    {
+        self.shared.mem_snapshots.lock().unwrap().iter().filter_map(|a| a.clone().downcast::<GuestMemoryMmap<B>>().ok()).collect()
+    }
+
+    fn sampler_fd(&self, thread: usize) -> Option<Arc<OwnedFd>> {
+        let mut g = self.shared.samplers.lock().unwrap();
+        if let Some(fd) = g.get(&thread) {
+            return Some(fd.clone());
+        }
+        let fd = Arc::new(peer::eventfd(true));
+        g.insert(thread, fd.clone());
+        drop(g);
+        if self.workers[thread].register_listener(fd.as_raw_fd(), SAMPLE_BASE + thread as u64).is_err() {
+            self.shared.samplers.lock().unwrap().remove(&thread);
+            return None;
+        }
+        Some(fd)
+    }
+
+    /// One delivery of the sampling listener on worker `thread`; returns the index of its `HandleEvent` log entry.
+    fn sampler_delivery(&self, thread: usize) -> Option<usize> {
+        let fd = self.sampler_fd(thread)?;
+        let id = (SAMPLE_BASE + thread as u64) as u16;
+        let from = self.log.len();
+        peer::efd_write(fd.as_raw_fd(), 1).ok()?;
+        self.log.wait_for(
+            from,
+            |e| matches!(e, Ev::HandleEvent { device_event, thread_id, .. } if *device_event == id && *thread_id == thread),
+            self.watchdog,
+        )
+    }
+
+    /// Queue accessors of every ring of worker `thread`'s slice, read inside the backend's `handle_event`
+    /// (delivery of a dedicated listener registered through the public `register_listener`).
+    pub fn sample(&self, thread: usize) -> Option<Vec<RingFull>> {
+        self.sampler_delivery(thread)?;
+        let id = (SAMPLE_BASE + thread as u64) as u16;
+        let g = self.shared.samples.lock().unwrap();
+        g.iter().rev().find(|s| s.device_event == id && s.thread_id == thread).map(|s| s.rings.clone())
+    }
+
+    /// Run `f` once inside the backend's `handle_event` on worker `thread` (with the ring slice the daemon passes) and
+    /// return its output tokens.  `None`: the worker did not answer within the watchdog.
+    pub fn run_in_handler<F>(&self, thread: usize, mut f: F) -> Option<Vec<String>>
+    where
+        F: FnMut(&[V]) -> Vec<String> + Send + 'static,
+        V: 'static,
+    {
+        let id = (SAMPLE_BASE + thread as u64) as u16;
+        self.shared.hook_out.lock().unwrap().clear();
+        self.shared.set_hook(Some(Box::new(move |ev, vrings: &[V], t| {
+            if ev == id && t == thread {
+                (f(vrings), false)
+            } else {
+                (Vec::new(), true)
+            }
+        })));
+        let r = self.sampler_delivery(thread);
+        self.shared.set_hook(None);
+        r?;
+        Some(std::mem::take(&mut *self.shared.hook_out.lock().unwrap()))
+    }
+
+    /// After a refused request (the daemon's connection thread ended): wait for it, let the same daemon accept a fresh
+    /// connection and replace `peer`.  Returns what `wait()` reported for the old connection, `None` if no new
+    /// connection could be established.
+    pub fn reconnect(&mut self) -> Option<bool> {
+        let _ = self.peer.sock.shutdown(std::net::Shutdown::Both);
+        let d = self.daemon.as_mut()?;
+        let waited = d.wait_ok();
+        let path = sock_path();
+        let mut listener = Listener::new(&path, true).ok()?;
+        let sock = UnixStream::connect(&path).ok()?;
+        let ok = d.restart(&mut listener);
+        drop(listener);
+        let _ = std::fs::remove_file(&path);
+        if !ok {
+            return None;
+        }
+        self.peer = RawPeer::new(sock);
+        Some(waited)
     }
 
     /// barrier on every worker
